@@ -710,6 +710,136 @@ def stop_after_eof(ctx, rng, prop, which):
         sc.close()
 
 
+def reader_closed_keeps_sending(ctx, rng, prop, which):
+    """One endpoint stops receiving (the tunnel's send to it fails with EPIPE) but keeps sending: that ends ONE
+    direction; everything the endpoint sends afterwards must still reach its peer, followed by its end-of-stream.
+    `which` = 'dst' or 'app' (the endpoint that stops receiving)."""
+    o = Opts(nflows=1, steps=0)
+    sc = Scenario(rng, o)
+    try:
+        t = sc.t
+        full = Io('ok', 'd65536', 's65536', False)
+        near, far = ('s', 'c') if which == 'dst' else ('c', 's')
+        other = 'app' if which == 'dst' else 'dst'
+        sc.do(('accept',))
+        sc.do(('deliver', 's', 'ok'))
+        sc.do(('deliver', 's', 'ok'))
+        if sc.stop or not t.flows:
+            return sc.s.ins, sc.s.outs
+        sc.env_write(0, which, payload(rng, 3000, 2))       # the endpoint's own data, part 1
+        sc.env_write(0, other, payload(rng, 1000, 1))       # data towards it, which it will refuse
+        sc.do(('cb', far, 0, full))
+        srcq = t.cmux if far == 'c' else t.smux
+        while srcq.outbuf and not sc.stop:
+            sc.do(('deliver', near, 'ok'))
+        sc.refused.add((0, which))
+        sc.do(('cb', near, 0, Io('ok', 'd65536', 'p', False)))  # reads part 1, the write towards the endpoint gets EPIPE
+        sc.env_write(0, which, payload(rng, 2000, 3))       # part 2, sent after it stopped receiving
+        sc.do(('cb', near, 0, full))
+        q1 = sc.drain(on_round=lambda s_: oracle_eof_order(ctx, s_, prop, 'drain'))
+        if q1 and not sc.stop:
+            # one direction has ended, the other is still open: the flow is alive on both ends, so is its id
+            oracle_ids_consistent(ctx, sc, prop)
+        sc.do(('de', 0) if which == 'dst' else ('ae', 0))
+        sc.do(('ae', 0) if which == 'dst' else ('de', 0))
+        q = sc.drain(on_round=lambda s_: oracle_eof_order(ctx, s_, prop, 'final drain'))
+        if not sc.stop:
+            oracle_eof_order(ctx, sc, prop, 'end')
+            oracle_complete(ctx, sc, prop, q)
+            if q:
+                oracle_ids_consistent(ctx, sc, prop)
+                oracle_teardown(ctx, sc, prop)
+                oracle_quiet(ctx, sc, prop)
+        oracle_alive(ctx, sc, prop, 'run')
+        return sc.s.ins, sc.s.outs
+    finally:
+        sc.close()
+
+
+def stop_with_buffered_reply(ctx, rng, prop):
+    """The destination answers early and then refuses the upload (EPIPE): the STOP_SENDING this causes reaches the
+    client while it still holds earlier answer bytes for an application socket that would block, and more of the
+    answer follows.  The answer direction is not the one that failed: the application must receive all of it."""
+    o = Opts(nflows=1, steps=0)
+    sc = Scenario(rng, o)
+    try:
+        t = sc.t
+        full = Io('ok', 'd65536', 's65536', False)
+        sc.do(('accept',))
+        sc.do(('deliver', 's', 'ok'))
+        sc.do(('deliver', 's', 'ok'))
+        if sc.stop or not t.flows:
+            return sc.s.ins, sc.s.outs
+        sc.env_write(0, 'dst', payload(rng, 3000, 1))                  # answer, part 1
+        sc.do(('cb', 's', 0, full))
+        while t.smux.outbuf and not sc.stop:
+            sc.do(('deliver', 'c', 'ok'))
+        sc.do(('cb', 'c', 0, Io('ok', 'a', 'a', False)))               # the application socket would block
+        sc.env_write(0, 'app', payload(rng, 1500, 2))                  # the upload the destination will refuse
+        sc.do(('cb', 'c', 0, Io('ok', 'd65536', 'a', False)))
+        while t.cmux.outbuf and not sc.stop:
+            sc.do(('deliver', 's', 'ok'))
+        sc.refused.add((0, 'dst'))
+        sc.do(('cb', 's', 0, Io('ok', 'a', 'p', False)))               # EPIPE towards the destination
+        sc.do(('pre', 's', 0))                                          # ... which asks the client to stop sending
+        sc.env_write(0, 'dst', payload(rng, 2500, 3))                  # answer, part 2
+        sc.do(('cb', 's', 0, Io('ok', 'd65536', 'p', False)))
+        while t.smux.outbuf and not sc.stop:
+            sc.do(('deliver', 'c', 'ok'))
+        sc.do(('cb', 'c', 0, full))
+        sc.do(('de', 0))
+        sc.do(('ae', 0))
+        q = sc.drain()
+        if not sc.stop:
+            oracle_prefix(ctx, sc, prop, 'end')
+            oracle_complete(ctx, sc, prop, q)
+        oracle_alive(ctx, sc, prop, 'run')
+        return sc.s.ins, sc.s.outs
+    finally:
+        sc.close()
+
+
+def odd_destinations(ctx, rng, prop):
+    """Destinations in every textual form the client can put into a CONNECT message (IPv4, IPv6, scoped link-local
+    IPv6 as getsockname reports it, IPv4-mapped): the server must open each of them and carry the bytes."""
+    import socket as _socket
+    forms = [(int(_socket.AF_INET), '192.0.2.7', 80), (int(_socket.AF_INET6), '2001:db8::7', 443),
+             (int(_socket.AF_INET6), 'fe80::1%eth0', 22), (int(_socket.AF_INET6), 'fe80::2%1', 8080),
+             (int(_socket.AF_INET6), '::ffff:192.0.2.9', 80), (int(_socket.AF_INET6), '::1', 65535)]
+    o = Opts(nflows=len(forms), steps=0)
+    sc = Scenario(rng, o)
+    try:
+        t = sc.t
+        for (fam, ip, port) in forms:
+            sc.do(('accept', fam, ip, port))
+        q = sc.drain()
+        if sc.stop or len(t.flows) < len(forms):
+            oracle_alive(ctx, sc, prop, 'run')
+            return sc.s.ins, sc.s.outs
+        for i in range(len(forms)):
+            sc.env_write(i, 'app', payload(rng, 300, 10 + i))
+            sc.env_write(i, 'dst', payload(rng, 200, 40 + i))
+        sc.drain()
+        for i in range(len(forms)):
+            sc.do(('ae', i))
+            sc.do(('de', i))
+        q = sc.drain()
+        if not sc.stop:
+            for i, f in enumerate(t.flows):
+                if not f.s_ever:
+                    report(ctx, sc, '%s:connect:destination-form-not-opened-by-the-server' % prop, i,
+                           'destination %s' % (forms[i],), 'the server opens the connection the client asked for',
+                           'no server-side handler was ever created; the application got %d bytes and %s'
+                           % (len(f.app.delivered), 'end-of-stream' if f.app.saw_shut else 'nothing'))
+                    break
+            oracle_prefix(ctx, sc, prop, 'end')
+            oracle_complete(ctx, sc, prop, q)
+        oracle_alive(ctx, sc, prop, 'run')
+        return sc.s.ins, sc.s.outs
+    finally:
+        sc.close()
+
+
 def closed_app_streaming_dst(ctx, rng, prop):
     """The application goes away completely (end-of-stream, and writes to it fail with EPIPE) while the destination,
     which only saw a half-close, keeps streaming: the flow must end on BOTH ends — an id freed on the client while
